@@ -985,13 +985,19 @@ def python_outputs_cover(A: Analysis, col: Collector, rule: str):
         return " && ".join(out)
 
     partial = []
+    hard = []
     for kind, node, payload in writes:
         g = guards(node)
         total = False
         why = ""
+        defaulting = False
         if kind in ("assign", "update") and isinstance(payload, ast.DictComp):
             gen = payload.generators[0]
-            if norm(gen.iter) == names_var and not gen.ifs and norm(payload.key) == norm(gen.target):
+            defaulted = any(isinstance(k, ast.Call) and isinstance(k.func, ast.Attribute) and k.func.attr in ("get", "setdefault", "pop") for k in ast.walk(payload.value))
+            if norm(gen.iter) == names_var and not gen.ifs and norm(payload.key) == norm(gen.target) and defaulted:
+                why = f"value `{norm(payload.value, 40)}` silently substitutes a default for an output the function did not return (it is then neither missing nor NOTHING)"
+                defaulting = True
+            elif norm(gen.iter) == names_var and not gen.ifs and norm(payload.key) == norm(gen.target):
                 total = True
             elif norm(gen.iter) == names_var and gen.ifs:
                 why = f"comprehension over {names_var} filtered by `{norm(gen.ifs[0])}`"
@@ -1011,8 +1017,12 @@ def python_outputs_cover(A: Analysis, col: Collector, rule: str):
             why = "unrecognised binding form"
         if total:
             col.ok(rule, f"PythonTask._run: `{norm(node, 60)}` binds every declared output", A.loc(node))
+        elif defaulting:
+            hard.append((node, why))
         else:
             partial.append((node, why))
+    for node, why in hard:
+        col.fail(rule, fn.qualname, "missing-output-defaulted", f"`{norm(node, 70)}`: {why}; no validation downstream can tell it from a returned value, so a task missing a mandatory output is reported and cached as success", A.loc(node))
     # does _from_job validate?
     fj = A.func("pydra.compose.python.PythonOutputs._from_job")
     validates = False
